@@ -278,8 +278,10 @@ def arith(op, a, b):
     if a is ERROR or b is ERROR:
         return ERROR
     if not is_num(a) or not is_num(b):
-        if (isinstance(a, str) and a == "" and is_num(b)) or (isinstance(b, str) and b == "" and is_num(a)) or (a == "" and b == ""):
-            return ""   # empty with number is empty
+        if (isinstance(a, str) and a == "") or (isinstance(b, str) and b == ""):
+            # the empty-value rules are C08's subject; an empty string computed inside the DSL (joink of an empty map) does not
+            # even behave like an empty field value there
+            raise Unmodelled("arithmetic on an empty string")
         if isinstance(a, (str, bool, MMap, list, Funct)) or isinstance(b, (str, bool, MMap, list, Funct)):
             return ERROR
         raise Unmodelled("arith %s %s %s" % (typeof(a), op, typeof(b)))
@@ -575,8 +577,8 @@ class Interp(object):
             if isinstance(a, float):
                 return -a
             if a is ERROR or isinstance(a, (str, bool, MMap, list)):
-                if a == "":
-                    return ""
+                if isinstance(a, str) and a == "":
+                    raise Unmodelled("unary minus of an empty string")
                 return ERROR
         if op == "+":
             if is_num(a) or a is ABSENT:
@@ -814,7 +816,7 @@ class Interp(object):
                 if not is_int(k):
                     return False
                 return 1 <= k <= len(v) or -len(v) <= k <= -1
-            return False
+            raise Unmodelled("haskey on a value that is neither map nor array")
         if name == "mapsum":
             m = MMap()
             for x in a:
